@@ -296,7 +296,7 @@ func (w *gmWorld) poolWith(din, dout string, exclude map[uint64]bool) *gmPool {
 	return cand[w.r.Intn(len(cand))]
 }
 
-// randomRoute builds a route of up to maxHops hops over distinct pools starting from a random denom.
+// randomRoute builds a route of up to maxHops hops starting from a random denom (three in four over distinct pools).
 func (w *gmWorld) randomRoute(maxHops int) (string, []poolmanagertypes.SwapAmountInRoute, []*gmPool) {
 	r := w.r
 	for attempt := 0; attempt < 20; attempt++ {
@@ -304,6 +304,9 @@ func (w *gmWorld) randomRoute(maxHops int) (string, []poolmanagertypes.SwapAmoun
 		din := start.denoms[r.Intn(len(start.denoms))]
 		cur := din
 		used := map[uint64]bool{}
+		// one route in four may come back to a pool it has already been through (A->B->C inside one 3-asset pool,
+		// or A->B->A); the others visit every pool at most once
+		revisit := r.Intn(4) == 0
 		var route []poolmanagertypes.SwapAmountInRoute
 		var ps []*gmPool
 		hops := 1 + r.Intn(maxHops)
@@ -311,7 +314,7 @@ func (w *gmWorld) randomRoute(maxHops int) (string, []poolmanagertypes.SwapAmoun
 			// pools containing cur
 			var cand []*gmPool
 			for _, p := range w.pools {
-				if used[p.id] {
+				if used[p.id] && !revisit {
 					continue
 				}
 				for _, d := range p.denoms {
